@@ -11,7 +11,7 @@ EXPLAIN = "explain"
 RULE = ("cache.rate_limit(limit 1-4, period 1-3 s, ttl none/1-4 s), cache.slice_rate_limit(limit 1-4, period 1-3 s) and cache.circuit_breaker("
         "errors_rate 34/50/67, period 1-3 s, ttl 1-3 s, min_calls 1-3) through the facade, 3-24 calls at strictly increasing instants on a 1/16 s "
         "grid with bursts and gaps that straddle window boundaries (exactly period / ttl apart included), scripted success / listed failure / "
-        "unlisted failure, default error and custom action; plus concurrent bursts: 2-6 rounds of 1-4 callers started at one instant with every incr / expire / "
+        "unlisted failure, default error and custom action, the default key or a key template with a placeholder (calls for a second host interleaved); plus concurrent bursts: 2-6 rounds of 1-4 callers started at one instant with every incr / expire / "
         "slice_incr of the limiter and the function body gated and scheduled (judged as the sequence of their counting commands). non-trivial: at least one call was rejected / the breaker opened, and a later call ran again")
 TRUSTED_BASE = ["Coq 8.16.1 kernel + vm_compute", "hand-written model coq/Model/Rate.v over the TTL-map spec, tied by this differential run",
                 "float timestamps exact on the 1/16 s grid; errors_rate comparison modelled in integers (fails*100 >= rate*total)"]
@@ -45,7 +45,7 @@ def gen_cases(rng, tier):
         ttl = rng.choice([0, 0, 16, 32, 48, 64, period])
         c = {"kind": kind, "limit": rng.randint(1, 4), "period": period, "ttl": ttl, "action": rng.random() < 0.3,
              "rate": rng.choice([34, 50, 67]), "min_calls": rng.randint(1, 3),
-             "advs": _times(rng, rng.randint(3, 24), period, ttl or period)}
+             "advs": _times(rng, rng.randint(3, 24), period, ttl or period), "keyed": rng.random() < 0.4}
         if kind == "breaker":
             c["ttl"] = 16 * rng.choice([1, 2, 3])
         c["script"] = [rng.choice(["ok", "ok", "A", "A", "B"]) for _ in c["advs"]]
@@ -147,12 +147,15 @@ def run_impl(case):
         period = case["period"] * TICK
         ttl = case["ttl"] * TICK
         action = (lambda *a, **k: "rejected") if case["action"] else None
-        if kind == "rate": deco = cache.rate_limit(limit=case["limit"], period=period, ttl=ttl or None, action=action)
-        elif kind == "slide": deco = cache.slice_rate_limit(limit=case["limit"], period=period, action=action)
-        else: deco = cache.circuit_breaker(errors_rate=case["rate"], period=period, ttl=ttl, min_calls=case["min_calls"], exceptions=ExcA)
+        kw = {"key": "svc:{host}"} if case.get("keyed") else {}       # a key template with a placeholder: one window / breaker per host
+        if kind == "rate": deco = cache.rate_limit(limit=case["limit"], period=period, ttl=ttl or None, action=action, **kw)
+        elif kind == "slide": deco = cache.slice_rate_limit(limit=case["limit"], period=period, action=action, **kw)
+        else: deco = cache.circuit_breaker(errors_rate=case["rate"], period=period, ttl=ttl, min_calls=case["min_calls"], exceptions=ExcA, **kw)
 
         @deco
-        async def f():
+        async def f(host="h1"):
+            if host != "h1":
+                return "other"
             st["ran"] += 1
             s = case["script"][st["i"]]
             if kind == "breaker":
@@ -166,7 +169,12 @@ def run_impl(case):
             before = st["ran"]
             t = round((vclock.Clock.now - vclock.BASE) / TICK)
             try:
-                r = await f()
+                if case.get("keyed") and i % 3 == 2:
+                    try:
+                        await f(host="h2")      # another host's calls are counted elsewhere: they never change what h1 sees
+                    except Exception:  # noqa - h2's own limit / breaker
+                        pass
+                r = await (f(host="h1") if case.get("keyed") else f())
                 out = "rejected" if r == "rejected" else "done"
             except RateLimitError: out = "rejected"
             except CircuitBreakerOpen: out = "open"
@@ -181,7 +189,7 @@ def run_impl(case):
             if kind == "breaker":
                 op = False
                 for k in list(mem.store):
-                    if k.endswith(":open") and await mem.exists(k):
+                    if k.endswith(":open") and "h2" not in k and await mem.exists(k):
                         op = True
             steps.append([t, case["script"][i], ran, out, op])
         await cache.close()
